@@ -106,6 +106,18 @@ static void jb_size(jb_t *b, size_t v)
     else jb_printf(b, "\"0x%zx\"", v);
 }
 
+/* event list of the operation being applied (callbacks, allocator calls, hash
+ * calls ...), in order; the engine appends it to the record as "ev":[...] even
+ * when the operation aborted half way */
+static jb_t e_ev; static int e_evn;
+static void ev_add(const char *fmt, ...) __attribute__((format(printf, 1, 2)));
+static void ev_add(const char *fmt, ...)
+{
+    char tmp[256]; va_list ap;
+    va_start(ap, fmt); vsnprintf(tmp, sizeof tmp, fmt, ap); va_end(ap);
+    jb_printf(&e_ev, "%s%s", e_evn++ ? "," : "", tmp);
+}
+
 /* ---------------------------------------------------------------- driver interface */
 static void drv_setup(int argc, char **argv);
 static void drv_reset(void);
@@ -121,6 +133,8 @@ static void drv_ser(jb_t *b);
 static void drv_opjson(const vop_t *op, jb_t *b);
 /* 1: do not explore beyond this op's post-state even if it succeeded */
 static int  drv_terminal(const vop_t *op);
+/* called after an operation was cut short by a signal (reset tracking flags) */
+static void drv_aborted(void);
 /* header members describing the scope: `"N":6,"key":[..]` (no braces) */
 static void drv_header(jb_t *b);
 
@@ -167,6 +181,7 @@ static const char *e_apply(const vop_t *op, jb_t *res)
 {
     int sig;
     e_forced_outcome = NULL;
+    jb_reset(&e_ev); e_evn = 0;
     sig = sigsetjmp(e_jmp, 1);
     if (sig == 0) {
         e_timer(e_hang_secs);
@@ -174,9 +189,13 @@ static const char *e_apply(const vop_t *op, jb_t *res)
         drv_apply(op, res);
         e_in_apply = 0;
         e_timer(0);
+        jb_printf(res, ",\"ev\":[%s]", e_ev.p);
         return e_forced_outcome ? e_forced_outcome : "ok";
     }
     e_timer(0);
+    drv_aborted();
+    jb_reset(res);            /* members written before the jump are dropped */
+    jb_printf(res, ",\"ev\":[%s]", e_ev.p);
     switch (sig) {
     case SIGABRT: return "abort";
     case SIGALRM: return "hang";
